@@ -100,7 +100,7 @@ func scaleSizes(f *scaleFam, thorough bool) []int {
 			set[p+d] = true
 		}
 	}
-	for _, n := range []int{80, 96, 150, 200, 300, 384, 500, 640, 768, 1500, 3000, 5000, 6000, 12000, 20000, 50000, 70000} {
+	for _, n := range []int{80, 96, 150, 200, 300, 384, 500, 640, 768, 1500, 3000, 5000, 6000, 12000, 20000, 50000, 70000, 150000, 150002, 160000, 200000, 320000, 400000} {
 		set[n] = true
 	}
 	set[max] = true
@@ -322,6 +322,10 @@ func scaleCLI(c *fw.Ctx, f *scaleFam, n int, sc scaleCase, kind drive.ErrKind) *
 		what = "the binary does not end with a small non-zero status on an error"
 	case kind == drive.KNone && se2 != "":
 		what = "the binary writes to standard error on a successful run"
+	case sc.Line > 0 && !strings.Contains(se2, sc.SrcLine+"\n"):
+		what = "the binary's diagnostic does not quote the faulting line as it stands in the program"
+	case sc.Line > 0 && !strings.Contains(se2, fmt.Sprintf("on line %d:", sc.Line)):
+		what = fmt.Sprintf("the binary's diagnostic does not name line %d", sc.Line)
 	}
 	if what == "" {
 		return nil
